@@ -868,12 +868,14 @@ func (c *Ctx) lossTable(fi *load.FuncInfo, kind string) {
 	}
 	// the closing stream is the snapshots' Close, the action stream the inner strategy's
 	roleOK := false
-	ast.Inspect(fi.Decl.Body, func(n ast.Node) bool {
-		if call, ok := n.(*ast.CallExpr); ok && strings.HasSuffix(calleeName(info, call), "asset.SnapshotsAsClosings") {
-			roleOK = true
-		}
-		return true
-	})
+	for _, body := range c.familyBodies(fi) {
+		ast.Inspect(body, func(n ast.Node) bool {
+			if call, ok := n.(*ast.CallExpr); ok && strings.HasSuffix(calleeName(info, call), "asset.SnapshotsAsClosings") {
+				roleOK = true
+			}
+			return true
+		})
+	}
 	run.Oblige(roleOK)
 	if !roleOK {
 		c.violate("decision-table", site, "closings", fi.Decl.Pos(), "the level is no longer compared with the closing price (asset.SnapshotsAsClosings)")
@@ -1411,11 +1413,21 @@ func (c *Ctx) everyReturnIsThePipeline(fi *load.FuncInfo, calleeSuffix, site str
 		if call, ok := e.(*ast.CallExpr); ok && strings.HasSuffix(calleeName(info, call), calleeSuffix) {
 			hasLit, fromInner := false, false
 			for _, a := range call.Args {
-				if fl := funcLitOf(info, fi.Decl, a); fl != nil && fl == lit {
+				// the same closure: a declared function handed by name is presented as a fresh
+				// literal over its body on every look-up, so bodies are compared, not nodes
+				if fl := funcLitOf(info, fi.Decl, a); fl != nil && lit != nil && (fl == lit || (fl.Body != nil && lit.Body != nil && (fl.Body == lit.Body || fl.Body.Pos() == lit.Body.Pos()))) {
 					hasLit = true
 				}
 				if derivesFromDeep(info, fi.Decl, a, ".Compute") {
 					fromInner = true
+				}
+				// ... also through a local or an unexported helper that returns it
+				if o, _ := c.origin(info, fi.Decl, a, 0); o != nil {
+					if oc, isCall := ast.Unparen(o).(*ast.CallExpr); isCall {
+						if sel, isSel := oc.Fun.(*ast.SelectorExpr); isSel && sel.Sel.Name == "Compute" {
+							fromInner = true
+						}
+					}
 				}
 			}
 			good = hasLit && fromInner
